@@ -268,7 +268,13 @@ class HTMLSerializer(object):
                 doctype = "<!DOCTYPE %s" % token["name"]
 
                 if token["publicId"]:
-                    doctype += ' PUBLIC "%s"' % token["publicId"]
+                    if token["publicId"].find('"') >= 0:
+                        if token["publicId"].find("'") >= 0:
+                            self.serializeError("Public identifier contains both single and double quote characters")
+                        quote_char = "'"
+                    else:
+                        quote_char = '"'
+                    doctype += " PUBLIC %s%s%s" % (quote_char, token["publicId"], quote_char)
                 elif token["systemId"]:
                     doctype += " SYSTEM"
                 if token["systemId"]:
